@@ -64,7 +64,8 @@ def duration_core(text: str):
     m = _DUR.match(text.upper())
     if not m:
         raise NoTemplate(f"duration {text!r}")
-    parts = [("app", "interval", [("slit", n), ("slit", u)]) for n, u in zip(m.groups()[1:], _UNITS) if n is not None]
+    parts = [("app", "interval", [("slit", n), ("slit", u)]) for n, u in zip(m.groups()[1:], _UNITS)
+             if n is not None and float(n) != 0]   # zero-length components denote the zero duration (see c_interval)
     if not parts:
         total: Any = ("ilit", 0)
     else:
@@ -220,6 +221,12 @@ class SqlToCore:
         raise NoTemplate(f"{t[1]} literal")
 
     def c_interval(self, t):
+        # a zero-length interval of any unit denotes the zero duration (duration'P' has no components)
+        try:
+            if float(t[1]) == 0:
+                return ("ilit", 0)
+        except (TypeError, ValueError):
+            pass
         return ("app", "interval", [("slit", t[1]), ("slit", t[2])])
 
     def c_neg(self, t):
